@@ -5,8 +5,8 @@ Model: `Model/Discovery.lean` (hand model of `GeckoAsyncLocator.discover` / `_as
 loop and `GeckoHelloProtocolHandler.handle`), waits taken from `Generated/ConfigTables.lean`.
 
 * The functional theorems (`listed_once`, `listed_eq_handled`, `listed_first_reply`, `listed_covers`, `filter_honoured`,
-  `closed_on_return`, `frozen_after_return`, `no_early_return`, `always_by_timeout_any_schedule`) hold for EVERY input sequence
-  over `datagram | tick | consume suspend | resume | poll`, i.e. for arbitrary datagrams (any bytes), arbitrary relative
+  `closed_on_return`, `closed_on_cancel`, `frozen_after_return`, `no_early_return`, `always_by_timeout_any_schedule`) hold for
+  EVERY input sequence over `datagram | tick | consume suspend | resume | poll | cancel`, i.e. for arbitrary datagrams (any bytes), arbitrary relative
   timing and order of the three tasks, and an event handler that may suspend arbitrarily long.
 * The timing theorems (`returns_on_found`, `returns_after_initial`, `always_by_timeout`) are about the lockstep tick model:
   both 0.1 s pollers wake at every tick, in either order (`Slot.mainFirst`), with any arrivals in between
@@ -120,6 +120,7 @@ theorem always_by_timeout (slots : List Slot) (h : c.timeout < slots.length) :
   apply returns_by c f (fun _ => True) c.timeout (fun _ _ _ => trivial) ?_ slots DState.init trivial
   · intro _; simp [DState.init]
   · intro r hr; simp [DState.init] at hr
+  · intro a; simp [DState.init]
   · simpa [DState.init] using h
   · intro s _ hK _
     simp [exitNow, Nat.not_lt.mpr hK]
@@ -129,6 +130,7 @@ theorem always_by_timeout_any_schedule (is : List Input) (h : c.timeout ≤ (dis
     (step c f (discoverRun c f is) .poll).main ≠ .running := by
   cases hm : (discoverRun c f is).main with
   | returned r => rw [step_returned c f _ _ r hm]; simp
+  | cancelled a => rw [step_final c f _ _ (by rw [hm]; simp), hm]; simp
   | running =>
     rw [poll_exits c f _ hm (by simp [exitNow, Nat.not_lt.mpr h])]; simp
 
@@ -145,7 +147,9 @@ theorem returns_on_found (pre post : List Slot) (hr : f.restricting = true)
     exact this
   unfold discoverRun at *
   rw [lockstep_append, run_append]
+  have hnc := run_noCancel c f _ (lockstep_noCancel pre) DState.init (by simp [DState.init])
   cases hm : (run c f DState.init (lockstep pre)).main with
+  | cancelled a => exact absurd hm (hnc a)
   | returned r0 =>
     exact ⟨r0, run_returned c f _ _ _ hm, by rw [← ht]; exact (hi.ret r0 hm).1⟩
   | running =>
@@ -154,7 +158,7 @@ theorem returns_on_found (pre post : List Slot) (hr : f.restricting = true)
     have := returns_by c f (fun s => s.found = true) (run c f DState.init (lockstep pre)).t
       (fun s i h => (step_spas_found c f s i).2 h)
       (fun s hs _ _ => by simp [exitNow, hs])
-      post _ hfound (fun _ => Nat.le_refl _) (fun r h => by rw [hm] at h; cases h)
+      post _ hfound (fun _ => Nat.le_refl _) (fun r h => by rw [hm] at h; cases h) hnc
       (by have : 0 < post.length := List.length_pos_iff.mpr hp
           omega)
     rw [ht] at this
@@ -181,6 +185,7 @@ theorem returns_after_initial (pre post : List Slot)
     have := (hi.ret r hr).1
     rw [ht] at this
     exact Nat.le_trans this (Nat.le_max_left _ _)
+  · exact run_noCancel c f _ (lockstep_noCancel pre) DState.init (by simp [DState.init])
   · rw [ht]; exact hlen
   · intro s hs hK _
     have h1 : c.initial < s.t := by
@@ -203,29 +208,43 @@ theorem no_early_return (is : List Input) (r : Nat) (h : (discoverRun c f is).ma
   · exact Or.inr (Or.inl h1)
   · exact Or.inr (Or.inr ⟨(hi.foundImp h1).1, (hi.foundImp h1).2, h1⟩)
 
-/-- **closed_on_return** (normal return path): when `discover` has returned the endpoint is closed, the broadcaster and the
-hello consumer are cancelled (or the consumer had already died), under any schedule; while it runs the endpoint is open -/
+/-- **closed_on_return** (both ways out, under any schedule): when `discover` has returned OR was cancelled (its clean-up is
+a `finally` block since /repo 865a18b) the endpoint is closed, the broadcaster and the hello consumer are cancelled (or the
+consumer had already died); while it runs the endpoint is open.  (A cancellation that lands before the endpoint exists —
+inside `create_datagram_endpoint` — is outside the model: there is nothing to close yet.) -/
 theorem closed_on_return (is : List Input) :
-    (∀ r, (discoverRun c f is).main = .returned r →
+    ((discoverRun c f is).main ≠ .running →
       (discoverRun c f is).closed = true ∧ (discoverRun c f is).bcastAlive = false ∧
-      ((discoverRun c f is).consumer = .cancelled ∨ ∃ e, (discoverRun c f is).consumer = .dead e) ∧
-      r ≤ (discoverRun c f is).t) ∧
+      ((discoverRun c f is).consumer = .cancelled ∨ ∃ e, (discoverRun c f is).consumer = .dead e)) ∧
+    (∀ r, (discoverRun c f is).main = .returned r → r ≤ (discoverRun c f is).t) ∧
     ((discoverRun c f is).main = .running → (discoverRun c f is).closed = false) := by
   have hi := inv c f is
-  refine ⟨fun r h => ?_, fun h => ?_⟩
-  · obtain ⟨h1, h2, h3, _⟩ := hi.ret r h
-    exact ⟨hi.closedIff.mpr (by rw [h]; simp), h3, h2, h1⟩
+  refine ⟨fun h => ?_, fun r h => (hi.ret r h).1, fun h => ?_⟩
+  · obtain ⟨h2, h3⟩ := hi.fin h
+    exact ⟨hi.closedIff.mpr h, h3, h2⟩
   · cases hcl : (discoverRun c f is).closed with
     | false => rfl
     | true => exact absurd h (hi.closedIff.mp hcl)
 
-/-- nothing happens after the return: late datagrams are dropped, the list and the return time stay as they were -/
-theorem frozen_after_return (is more : List Input) (r : Nat) (h : (discoverRun c f is).main = .returned r) :
+/-- cancelling a running discovery runs the clean-up in that very step and keeps what was listed -/
+theorem closed_on_cancel (is : List Input) (h : (discoverRun c f is).main = .running) :
+    let s := discoverRun c f is
+    (step c f s .cancel).main = .cancelled s.t ∧ (step c f s .cancel).closed = true ∧
+    (step c f s .cancel).bcastAlive = false ∧ (step c f s .cancel).spas = s.spas ∧
+    ((step c f s .cancel).consumer = .cancelled ∨ ∃ e, (step c f s .cancel).consumer = .dead e) := by
+  intro s
+  simp only [step]
+  rcases onCancel_cases s with ⟨_, h2⟩ | ⟨h1, _⟩
+  · rw [h2]; exact ⟨rfl, rfl, rfl, rfl, cleanup_consumer s _⟩
+  · exact absurd h h1
+
+/-- nothing happens after the return / the cancellation: late datagrams are dropped, the list and the status stay -/
+theorem frozen_after_return (is more : List Input) (h : (discoverRun c f is).main ≠ .running) :
     (discoverRun c f (is ++ more)).spas = (discoverRun c f is).spas ∧
-    (discoverRun c f (is ++ more)).main = .returned r ∧ (discoverRun c f (is ++ more)).closed = true := by
+    (discoverRun c f (is ++ more)).main = (discoverRun c f is).main ∧ (discoverRun c f (is ++ more)).closed = true := by
   unfold discoverRun at *
   rw [run_append]
-  obtain ⟨h1, h2, h3, _⟩ := frozen_run c f more _ (inv c f is) r h
+  obtain ⟨h1, h2, h3, _⟩ := frozen_run c f more _ (inv c f is) h
   exact ⟨h1, h2, h3⟩
 
 /-! ### non-vacuity: concrete runs (ticks of 0.1 s: INITIAL = 40, TIMEOUT = 100) -/
@@ -250,6 +269,11 @@ example : (discoverRun ⟨40, 100⟩ ⟨some [83, 80, 65, 50], false⟩ (lockste
   decide +kernel
 /-- nobody answers: return exactly at the timeout -/
 example : (discoverRun ⟨40, 100⟩ ⟨none, false⟩ (lockstep (quiet 120))).main = .returned 100 := by decide +kernel
+/-- a discovery cancelled at tick 7 with one spa listed: closed, helpers gone, list kept -/
+example : (discoverRun ⟨40, 100⟩ ⟨none, false⟩ (lockstep (⟨[spaA], false⟩ :: quiet 6) ++ [Input.cancel])).main = .cancelled 7 ∧
+    (discoverRun ⟨40, 100⟩ ⟨none, false⟩ (lockstep (⟨[spaA], false⟩ :: quiet 6) ++ [Input.cancel])).closed = true ∧
+    (discoverRun ⟨40, 100⟩ ⟨none, false⟩ (lockstep (⟨[spaA], false⟩ :: quiet 6) ++ [Input.cancel])).spas.length = 1 := by
+  decide +kernel
 /-- the hypotheses of the timing theorems are satisfiable -/
 example : (discoverRun ⟨40, 100⟩ ⟨none, true⟩ (lockstep [⟨[spaA], false⟩])).spas ≠ [] := by decide +kernel
 example : (⟨none, true⟩ : Filter).restricting = true := by decide
